@@ -103,6 +103,19 @@ func (s *State) clone() *State {
 	return n
 }
 
+// aboutTerm: hypotheses that are facts about one particular application term (axiom instances for a bit
+// operation).  They are shipped with a VC only if that term occurs in it (relevance filter; dropping a
+// hypothesis can never make an invalid VC provable).
+var aboutTerm = map[*Term]*Term{}
+
+func (s *State) assumeAbout(subject, t *Term) {
+	if t.IsTrue() {
+		return
+	}
+	aboutTerm[t] = subject
+	s.pc = append(s.pc, t)
+}
+
 func (s *State) assume(t *Term) {
 	if t.IsTrue() {
 		return
@@ -576,6 +589,12 @@ func (c *FCtx) valIte(cond *Term, a, b Val) (Val, bool) {
 		return LV{Path: x.Path, Cell: x.Cell, Off: Ite(cond, x.Off, y.Off), Len: Ite(cond, x.Len, y.Len), Cap: Ite(cond, x.Cap, y.Cap), Elem: x.Elem, IsNil: Ite(cond, x.IsNil, y.IsNil), Str: x.Str, Typ: x.Typ}, true
 	case PV:
 		y, ok := b.(PV)
+		if ok && x.IsNil.IsTrue() && !y.IsNil.IsTrue() {
+			return PV{Cell: y.Cell, Path: y.Path, IsNil: Ite(cond, True(), y.IsNil), Typ: y.Typ}, true
+		}
+		if ok && y.IsNil.IsTrue() && !x.IsNil.IsTrue() {
+			return PV{Cell: x.Cell, Path: x.Path, IsNil: Ite(cond, x.IsNil, True()), Typ: x.Typ}, true
+		}
 		if !ok || x.Cell != y.Cell || len(x.Path) != len(y.Path) {
 			return nil, false
 		}
